@@ -33,3 +33,37 @@ def request_for(src):
     after = bool(m.tainted)
     req = 'taint.names %s %s' % (enc, sexp.lst(['(%s %d)' % (sexp.enc_str(x), n) for x, n in lookups]))
     return req, before, after, len(lookups)
+
+
+def syntactic_requests(src):
+    """→ (taint.imports request, module.tainted after bind_names, taint.declared request, [is_only_declared(b) for the module's
+    bindings after resolve_names], whether the loop of minify() would taint the module)"""
+    from python_minifier.ast_annotation import add_parent
+    from python_minifier.rename import add_namespace, bind_names, resolve_names
+    from python_minifier.rename.util import is_only_declared
+    import pyast
+    m = ast.parse(src)
+    imports_req = 'taint.imports ' + pyast.enc_module(m)
+    add_parent(m)
+    add_namespace(m)
+    bind_names(m)
+    before = bool(m.tainted)
+    resolve_names(m)
+    items, flags = [], []
+    loop = False
+    for b in m.bindings:
+        name = b.name if isinstance(b.name, str) else ''
+        kinds = []
+        for node in b.references:
+            if isinstance(node, ast.Global):
+                kinds.append('g')
+            elif isinstance(node, ast.Name) and isinstance(node.ctx, ast.Load):
+                kinds.append('l')
+            else:
+                kinds.append('o')
+        items.append('(%s (%s))' % (sexp.enc_str(name), ' '.join(kinds)))
+        f = bool(is_only_declared(b))
+        flags.append(f)
+        if name in ('exec', 'eval', 'locals', 'globals', 'vars') and f:
+            loop = True
+    return imports_req, before, 'taint.declared (%s)' % ' '.join(items), flags, loop
